@@ -702,7 +702,8 @@ class LeastSquare:
 
         numbtype = number_type(allknots)
         numbtype = Fraction if (numbtype is int) else numbtype
-        nptsinteg = olddegree + newdegree + 3  # Number integration points
+        # Number integration points: the squares of both bases are integrated too
+        nptsinteg = max(olddegree + newdegree + 3, 2 * max(olddegree, newdegree) + 1)
         if numbtype is Fraction:
             nodes0to1 = NodeSample.open_linspace(nptsinteg)
             integrator = IntegratorArray.open_newton_cotes(nptsinteg)
